@@ -11,10 +11,22 @@ TARGET = os.environ.get("VERIF_NATIVE_TARGET", "/tmp/verif-native-target")
 def ensure_replay(log=None, features=""):
     """-> path of the replay binary, or None when it cannot be built (then counterexamples stay unconfirmed)"""
     nat = os.path.join(VERIF, "native")
+    target = TARGET
+    if os.path.realpath(REPO) != "/repo":
+        # VERIF_REPO points at another checkout (background sweeps on a snapshot): build a private copy of
+        # the driver whose path dependency is that checkout, with its own target directory
+        import hashlib
+        tag = hashlib.sha1(os.path.realpath(REPO).encode()).hexdigest()[:10]
+        alt = f"/tmp/verif-native-src-{tag}"
+        shutil.rmtree(alt, ignore_errors=True)
+        shutil.copytree(nat, alt, ignore=shutil.ignore_patterns("target"))
+        toml = open(os.path.join(alt, "Cargo.toml")).read().replace('path = "/repo"', f'path = "{os.path.realpath(REPO)}"')
+        open(os.path.join(alt, "Cargo.toml"), "w").write(toml)
+        nat, target = alt, f"{TARGET}-{tag}"
     shutil.copy2(os.path.join(REPO, "Cargo.lock"), os.path.join(nat, "Cargo.lock"))
     env = dict(os.environ)
     env["CARGO_NET_OFFLINE"] = "true"
-    env["CARGO_TARGET_DIR"] = TARGET
+    env["CARGO_TARGET_DIR"] = target
     env.pop("RUSTFLAGS", None)
     cmd = ["cargo", "build", "--offline", "--bin", "replay"]
     if features:
@@ -23,7 +35,7 @@ def ensure_replay(log=None, features=""):
     if log:
         with open(log, "a") as lf:
             lf.write("$ " + " ".join(cmd) + "\n" + p.stderr[-3000:] + "\n")
-    exe = os.path.join(TARGET, "debug", "replay")
+    exe = os.path.join(target, "debug", "replay")
     if p.returncode != 0 or not os.path.exists(exe):
         return None
     return exe
